@@ -58,7 +58,7 @@ func Shapes() []Shape {
 	return out
 }
 
-var Deliveries = []string{"one-read", "byte-at-a-time", "cut-at-5", "every-50th"}
+var Deliveries = []string{"one-read", "byte-at-a-time", "cut-at-5", "every-50th", "cut-at-2"}
 
 type custom struct{}
 
@@ -82,6 +82,10 @@ func deliverHello(cl *bubble.Client, mode string) {
 		}
 	case "cut-at-5":
 		cl.Raw.Deliver(5)
+		synctest.Wait()
+		cl.Raw.Deliver(-1)
+	case "cut-at-2": // the record header itself arrives in two reads
+		cl.Raw.Deliver(2)
 		synctest.Wait()
 		cl.Raw.Deliver(-1)
 	case "every-50th":
@@ -121,6 +125,7 @@ func SeamB(t *testing.T, rep *ev.Report, prop, header string, ref Ref, shard, of
 
 func runOne(t *testing.T, rep *ev.Report, prop, header string, ref Ref, set string, sh Shape, alpn []string, del string) {
 	desc := fmt.Sprintf("seamB set=%s shape=%s alpn=%v delivery=%s", set, sh.Name, alpn, del)
+	hsFailed := ""
 	res := bubble.Run(t, func() {
 		inj := fingerproxy.DefaultHeaderInjectors()
 		if set != "default" {
@@ -134,7 +139,7 @@ func runOne(t *testing.T, rep *ev.Report, prop, header string, ref Ref, set stri
 		cl := st.Connect("a", memnet.TCPAddr("192.0.2.1", 40000), h)
 		deliverHello(cl, del)
 		if done, err := cl.Handshake(); !done || err != nil {
-			rep.HarnessError("%s: handshake failed: %v %v", desc, done, err)
+			hsFailed = fmt.Sprintf("done=%v err=%v", done, err)
 			return
 		}
 		proto := cl.Proto
@@ -212,6 +217,32 @@ func runOne(t *testing.T, rep *ev.Report, prop, header string, ref Ref, set stri
 	if res.Hang != "" {
 		rep.Violate(map[string]any{"kind": "hang"}, map[string]any{"hang": res.Hang}, "the exchange never completed: %s", res.Hang)
 	}
+	if hsFailed != "" {
+		// The same hello, same client, same proxy, delivered in one read: if that handshake completes, whether the
+		// connection gets its header at all depends on how the bytes were delivered.
+		if del != "one-read" && handshakeCompletes(t, sh, alpn) {
+			rep.Violate(map[string]any{"kind": "delivery-changes-outcome", "header": header, "delivery": del},
+				map[string]any{"desc": desc, "handshake": hsFailed},
+				"%s: the handshake does not complete (%s) although the same ClientHello delivered in one read completes it: no request of this connection can carry %s", desc, hsFailed, header)
+		} else {
+			rep.HarnessError("%s: handshake failed: %s", desc, hsFailed)
+		}
+	}
+}
+
+func handshakeCompletes(t *testing.T, sh Shape, alpn []string) (ok bool) {
+	bubble.Run(t, func() {
+		st := bubble.NewStack(bubble.StackOpts{Injectors: fingerproxy.DefaultHeaderInjectors()})
+		defer st.Shutdown()
+		h := sh.Hello
+		h.ALPN = alpn
+		h.Manual = true
+		cl := st.Connect("a", memnet.TCPAddr("192.0.2.1", 40000), h)
+		deliverHello(cl, "one-read")
+		done, err := cl.Handshake()
+		ok = done && err == nil
+	})
+	return ok
 }
 
 func contains(set []string, s string) bool {
